@@ -187,6 +187,25 @@ def r3(ctx):
 
     def unthreaded(a, fb):
         return a.op == '==' and a.rc == 0 and field_is(a.l, 'threaded', 'qb_log_target')
+    # which properties of a target make the logging thread write it: the fields of qb_log_target (other than state) seen non-zero
+    # in front of the logger call in qb_log_thread_log_write.  A target with all of them is the thread's, every other enabled and
+    # selected target is written at the call: the two conditions must be each other's complement
+    w0 = prog.fn('qb_log_thread_log_write')
+    tl = [ev for ev in w0.events('CALL') if ev.callee == 'qb_log_target::logger']
+    if not tl:
+        raise AnalysisBroken('qb_log_thread_log_write: no logger call')
+    tprops = set()
+    for (a, _e) in w0.guards(tl[0]):
+        lf = last_field(a.l)
+        if a.op == '!=' and a.rc == 0 and lf is not None and lf[0] == 'qb_log_target' and lf[1] not in ('state', 'pos'):
+            tprops.add(lf[1])
+    if 'threaded' not in tprops:
+        tprops.add('threaded')
+
+    def not_the_threads(a, fb):
+        lf = last_field(a.l)
+        return a.op == '==' and a.rc == 0 and lf is not None and lf[0] == 'qb_log_target' and lf[1] in tprops
+    unthreaded = not_the_threads
     f = prog.fn('qb_log_real_va_')
     deliver = [ev for ev in f.events('CALL') if ev.callee in ('qb_log_target::vlogger', 'qb_log_target::logger')]
     if len(deliver) < 2:
@@ -197,8 +216,9 @@ def r3(ctx):
                   'a target that is not ENABLED can receive the message')
         ctx.check('R3', 'real:%s-needs-selected' % what, f.uncut_path(ev, selected) is None, ev, '%s only when the call site\'s target bit is set' % what,
                   'a target whose filters do not select the call site can receive the message')
-        ctx.check('R3', 'real:%s-needs-unthreaded' % what, f.uncut_path(ev, unthreaded) is None, ev, 'direct delivery only for non-threaded targets',
-                  'a threaded target is also written directly (message delivered twice)')
+        ctx.check('R3', 'real:%s-needs-unthreaded' % what, f.uncut_path(ev, unthreaded) is None, ev,
+                  'direct delivery only for targets the logging thread does not write (it writes those with %s)' % ' and '.join(sorted(tprops)),
+                  'a target the logging thread writes (%s set) is also written directly (message delivered twice)' % ' and '.join(sorted(tprops)))
     # at most one of vlogger / logger per target iteration
     vl = [ev for ev in deliver if ev.callee.endswith('vlogger')]
     lg = [ev for ev in deliver if ev.callee.endswith('::logger')]
@@ -222,9 +242,15 @@ def r3(ctx):
             if a.op == '!=' and a.rc == 0 and unwrap(a.l).get('k') == 'var' and unwrap(a.l).get('sc') == 'l':
                 flag = a.ls
         sets = [ev for ev in f.events('STORE') if flag and estr(ev.lhs) == flag and cval(unwrap(ev.rhs)) not in (0, None)]
-        ok = bool(sets) and all(f.uncut_path(s, enabled) is None and f.uncut_path(s, selected) is None and f.uncut_path(s, threaded) is None for s in sets)
-        ctx.check('R3', 'real:post-needs-threaded-target', ok, posts[0], 'posting requires an ENABLED, selected, threaded target',
-                  'the message is posted to the thread without an enabled+selected+threaded target')
+        def has_prop(pn):
+            def pred(a, fb):
+                lf = last_field(a.l)
+                return a.op == '!=' and a.rc == 0 and lf is not None and lf[0] == 'qb_log_target' and lf[1] == pn
+            return pred
+        ok = bool(sets) and all(f.uncut_path(s, enabled) is None and f.uncut_path(s, selected) is None and
+                                all(f.uncut_path(s, has_prop(pn)) is None for pn in tprops) for s in sets)
+        ctx.check('R3', 'real:post-needs-threaded-target', ok, posts[0], 'posting requires an ENABLED, selected target that the thread will write (%s)' % ' and '.join(sorted(tprops)),
+                  'the message is left to the thread for a target the thread will not write (it wants %s): that target gets nothing' % ' and '.join(sorted(tprops)))
     w = prog.fn('qb_log_thread_log_write')
     lg2 = [ev for ev in w.events('CALL') if ev.callee == 'qb_log_target::logger']
     if not lg2:
